@@ -701,12 +701,9 @@ func writeEvidence(prop, tier string, seed int, idx *Index, specs []HarnessSpec,
 		"seed":        seed,
 		"level":       "other",
 		"coverage":    cov,
-		"assumptions": idx.Assumptions[prop],
+		"assumptions": append([]string{}, idx.Assumptions[prop]...),
 		"wall_s":      wall,
 		"violations":  confirmed,
-	}
-	if ev["assumptions"] == nil {
-		ev["assumptions"] = []string{}
 	}
 	b, _ := json.MarshalIndent(ev, "", " ")
 	os.MkdirAll(filepath.Join(verifDir, "evidence"), 0o755)
